@@ -539,12 +539,27 @@ pub fn gen_bytes_content(rng: &mut Rng, n: usize) -> Vec<u8> {
         _ => rng.bytes(n),
     };
     if n > 0 {
-        match rng.below(12) {
+        match rng.below(14) {
             0 => b[0] = 0x00,
             1 => b[0] = 0xff,
             2 => b[0] = 0x80,
             3 => b[n - 1] = 0x00,
             4 => b[n - 1] = 0xff,
+            // contents that end (or start) like CBOR structure: status byte + empty map, break,
+            // null, an empty array (code that looks at the tail of a message instead of its shape)
+            5 if n >= 2 => {
+                b[n - 2] = 0x00;
+                b[n - 1] = 0xa0;
+            }
+            6 if n >= 2 => {
+                let (x, y) = *rng.pick(&[(0x00u8, 0x80u8), (0x00, 0xf6), (0xa0, 0x00), (0x01, 0xa0), (0xff, 0xff), (0x00, 0x00), (0xa0, 0xa0), (0x00, 0xff)]);
+                b[n - 2] = x;
+                b[n - 1] = y;
+            }
+            7 if n >= 2 => {
+                b[0] = 0x00;
+                b[1] = 0xa0;
+            }
             _ => {}
         }
     }
